@@ -22,7 +22,8 @@ import (
 //
 // Every case runs one REAL log call from a known call site (sections 1-7: on values built for
 // that case; section 8, c15_session.go: a whole sequence of calls on values shared by the
-// sequence) and ships
+// sequence; section 10, c15_conc.go: bursts of calls made by several goroutines at once, after
+// edge paths of the pooled capture) and ships
 //   - the user's stack at that call site (runtime.Callers taken on the same source line,
 //     by c15here(), which is evaluated as the message argument of the call), as frame ids,
 //   - the front end, the chain of conversions that produced the logger, the levels,
@@ -1207,6 +1208,8 @@ func c15(c *Ctx) {
 	}
 	// 8. sessions: sequences of calls on the SAME values (harness/c15_session.go)
 	c15sessions(c, r.Fork())
+	// 10. concurrent bursts after edge preludes of the pooled capture (harness/c15_conc.go)
+	c15concurrent(c, r.Fork())
 	c.Info("distinct_frames", strconv.Itoa(len(c15ids)))
 	// report which methods the table covers, for the evidence
 	var names []string
